@@ -513,7 +513,6 @@ func ruleC18(c *Check) {
 	c.ownerIsSigner("C18")
 }
 
-
 // requestIDLeads: the family's trailing id is a request id (generated by the
 // id writer, or admitted only when the request record for the same id exists)
 // and the id layout starts with context id ‖ 8-byte batch counter.
